@@ -141,25 +141,37 @@ def handleProtocolError (c : Conn) (message : Bytes) : Conn × WriteRes :=
 /-- decimal rendering (`strconv.Itoa`) of a code < 65536 -/
 def itoa (n : Nat) : Bytes := ascii (toString n)
 
+inductive ProtoErrKind where
+  /-- `invalid close payload length`: a one-byte body (RFC 6455 §5.5.1; commit 13f4dfc8) -/
+  | badLength
+  /-- `bad close code …` -/
+  | badCode
+  /-- `invalid utf8 payload in close frame` -/
+  | badUtf8
+deriving Repr, DecidableEq
+
 inductive RecvRes where
-  /-- protocol error returned by `advanceFrame` (`websocket: bad close code …` / invalid utf8) -/
-  | protoErr (badCode : Bool)
+  /-- protocol error returned by `advanceFrame` -/
+  | protoErr (kind : ProtoErrKind)
   /-- `CloseError{Code, Text}` -/
   | closeError (code : Nat) (text : Bytes)
 deriving Repr, DecidableEq
 
 /-- the `CloseMessage` branch of `advanceFrame` for an (unmasked) payload of ≤ 125 bytes. -/
 def recvClose (c : Conn) (payload : Bytes) : Conn × RecvRes × WriteRes :=
-  if payload.length ≥ 2 then
+  if payload.length = 1 then
+    let (c', w) := handleProtocolError c (ascii "invalid close payload length")
+    (c', .protoErr .badLength, w)
+  else if payload.length ≥ 2 then
     let code := u16 payload
     if !isValidReceivedCloseCode code then
       let (c', w) := handleProtocolError c (ascii "bad close code " ++ itoa code)
-      (c', .protoErr true, w)
+      (c', .protoErr .badCode, w)
     else
       let text := payload.drop 2
       if !utf8Valid text then
         let (c', w) := handleProtocolError c (ascii "invalid utf8 payload in close frame")
-        (c', .protoErr false, w)
+        (c', .protoErr .badUtf8, w)
       else
         let c1 := { c with recorded := record c.recorded code true }
         let (c2, w) := writeClose c1 (formatCloseMessage code [])
